@@ -291,6 +291,29 @@ func init() {
 		}
 		return verdict + "|" + strconv.Itoa(len(text)) + "|ok|" + DocLoss(doc, back).String()
 	}
+	// jsonrtvv <hex schema> <hex document>: validation alone (valid | invalid | VALPANIC | LOADERR | PARSEERR); a fatal
+	// error here (stack overflow of a rule) tells the check that a crash of jsonrtv is the validator's (C02)
+	Ops["jsonrtvv"] = func(a []string) string {
+		schema, doc, bad := loadPair(a[0], a[1])
+		if bad != "" {
+			return bad
+		}
+		verdict := "valid"
+		if panicked := func() (p bool) {
+			defer func() {
+				if recover() != nil {
+					p = true
+				}
+			}()
+			if errs := validator.Validate(schema, doc); len(errs) > 0 {
+				verdict = "invalid"
+			}
+			return false
+		}(); panicked {
+			return "VALPANIC"
+		}
+		return verdict
+	}
 	Ops["jsonstrgo"] = func(a []string) string {
 		b, _ := UnhexW(a[0])
 		out, err := json.Marshal(string(b))
